@@ -181,7 +181,7 @@ class ListField(Field):
             raise ValueError("value is required")
 
         if not self.field or isinstance(self.field, AnyField):
-            return value
+            return list(value) if isinstance(value, tuple) else value
 
         proxy = ListProxy(cfg, self, value)
         return proxy
